@@ -52,7 +52,9 @@ class BackendConvert(Contract):
         C = I.E.index.lookup("sigma.correlations:SigmaCorrelationRule")
         rules = []
         for i, kd in enumerate(case):
-            o = SObj(R if kd == "R" else C, {}, lazy=True)
+            # rules loaded with error collection may carry (non-fatal) parse errors: they are converted like any other rule - a rule is
+            # never dropped without a query or an error record
+            o = SObj(R if kd == "R" else C, {"errors": [SObj("CollectedParseError", {})] if i == 0 else []}, lazy=True)
             o.ghost.update(name=f"r{i}", nq=(i % 2) + 1, kind=kd)
             rules.append(o)
         coll = SObj(I.E.index.lookup("sigma.collection:SigmaCollection"), {"rules": rules}, lazy=True)
